@@ -233,7 +233,7 @@ var propRules = map[string]*PropSpec{
 		Technique:  techErr,
 	},
 	"C19": {
-		Rules:       []string{"PC1", "PC2", "B1", "P1", "A7", "U3", "A3.bsi", "A8", "P2"},
+		Rules:       []string{"PC1", "PC2", "B1", "P1", "A7", "U3", "A3.bsi", "A8", "P2", "A1.bsi"},
 		Explanation: explBase + " C19: every whole-index operation touches every plane including the sign plane; (un)marshal errors propagate; per-plane goroutines are joined.",
 		Decided: []string{
 			"planes of the 32-bit index are freshly built bitmaps, never a caller's bitmap (Add/addDigit, ParOr, UnmarshalBinary, NewBSIRetainSet)",
